@@ -341,6 +341,9 @@ ORDER = ["order_groups_by_start_timestamp", LEMMA_MAXEND_UPPER, LEMMA_MAXEND_ATT
 
 
 def setup(V):
+    # tmap() reads event_type, which update_event_type_based_on_children may rewrite: the functions whose contracts mention
+    # LINKS (the recursion and the job assembly) write no field at all, so in their VCs the heap is the initial one throughout
+    V.allow_heap_specs = True
     import ast
     import z3
     from pyvc.engine import V as Val
